@@ -97,8 +97,14 @@ where
         let (_, p) = zoo[mi].cp(sym);
         let prec = zoo[mi].prec();
         if peek_16 > 0 && rng.below(16) < peek_16 {
-            let g = coder.get_compressed();
-            let _ = g.map(|g| g.v.len());
+            if rng.bool() {
+                let g = coder.get_compressed();
+                let _ = g.map(|g| g.v.len());
+            } else {
+                // raw-binary view; usually refuses (state not word aligned) - that must be free too
+                let g = coder.get_binary();
+                let _ = g.map(|g| g.v.len());
+            }
             run.count("ans_peeks_while_encoding", 1);
         }
         let w0 = coder.bulk().writes;
